@@ -38,10 +38,17 @@ package router
 // configured with): the configuration object handed to a source is decoded for that source alone, it is not
 // an object an earlier source already holds (which a later decode would overwrite under its feet).
 //@ func New
-//@ props C19
+//@ props C19 C08
 //@ requires config != nil
 //@ loop-complete 2
 //@ site loop 1 call TagSource assert config != nil ==> iterfresh(config)
+// the built-in source (routing by the resonate:invoke tag) is installed exactly when no configured source is
+// named "default" (C08, C19: a promise tagged resonate:invoke gets its invocation task unless the operator
+// replaced the default source)
+//@ count-appends
+//@ site loop 1 backedge assert [C19 C08] source.Name == "default" ==> found
+//@ site call TagSource assert [C19 C08] config != nil ==> (iterfresh(config) || config.Key == "resonate:invoke")
+//@ site return assert [C19 C08] result1 == nil ==> (calls("append") == 1) == !found
 
 // The worker loop (C12: every submission taken from the queue is processed exactly once and its completion
 // is handed back exactly once; the loop ends only when the queue is closed). Callees are abstracted: they
